@@ -158,16 +158,21 @@ func c19Merge(c *Ctx, p *Prog) {
 				cases++
 				init := map[ssa.Value]*Sym{fn.Params[0]: mkPart("a", ops[o1]), fn.Params[1]: mkPart("b", ops[o2])}
 				mk := func() *e6Interp {
-					return &e6Interp{Init: init, Rank: func(s *Sym) (int, bool) {
-						if s.Op == "opaque" {
-							for _, nm := range names {
-								if s.Name == nm {
-									return rk[nm], true
+					return &e6Interp{Init: init,
+						// the tail of the merger may live in another loop-free method of part: evaluated in place
+						Inline: func(f *ssa.Function) bool {
+							return f != fn && f.Pkg == fn.Pkg && f.Signature.Recv() != nil && recvName(f.Signature.Recv().Type()) == "part" && len(naturalLoops(f)) == 0 && len(f.Blocks) <= 16
+						},
+						Rank: func(s *Sym) (int, bool) {
+							if s.Op == "opaque" {
+								for _, nm := range names {
+									if s.Name == nm {
+										return rk[nm], true
+									}
 								}
 							}
-						}
-						return 0, false
-					}}
+							return 0, false
+						}}
 				}
 				outs, why := e6Enumerate(mk, fn.Blocks[0], nil, nil, 64)
 				if why != "" || len(outs) != 1 || outs[0].Term != "return" || len(outs[0].Results) != 2 {
